@@ -189,9 +189,15 @@ def _chunk(recs):
     return out
 
 
-def _warm(i):
-    import accelforge.frontend.spec  # noqa
+def _spawn(i):
+    time.sleep(0.3)  # keeps the worker busy so that the executor forks all of them now
     return os.getpid()
+
+
+def _warm(i):
+    import accelforge
+    import accelforge.frontend.spec  # noqa
+    return os.path.dirname(accelforge.__file__)
 
 
 def _describe(rec):
@@ -226,7 +232,7 @@ def run(ck: Check):
         "the entry is absent, in the Einsum's own renames, or in the top-level renames under the Einsum's name (never "
         "both); for every name a `default` entry or none; sources from 2-3 expressions per kind (tensor / rank-variable "
         "renames) and expected_count from {none, 1, 2}. Quick: 1 name x 2 Einsums exhaustively for both kinds; thorough "
-        "adds 1 name x 3 Einsums and 2 names x 2 Einsums; plus random 1-3 Einsums x 1-3 names with compound sources "
+        "adds 1 name x 3 Einsums and 2 names x 2 Einsums (no counts); plus random 1-3 Einsums x 1-3 names with compound sources "
         "(-simulate). Cases in which a default entry's expected_count would mismatch in an Einsum that overrides the "
         "name are not generated. Expected set per (Einsum, name) / 'rejected' = Renames!Resolve, Rejected evaluated by "
         "TLC. Non-trivial = rejected, or some name has both a default entry and an entry for an Einsum; distinct by "
@@ -244,13 +250,13 @@ def run(ck: Check):
     ncpu = os.cpu_count() or 1
     nproc = max(2, min(8, ncpu // 2))
     pool = ProcessPoolExecutor(nproc, mp_context=multiprocessing.get_context("fork"))
-    list(pool.map(_warm, range(nproc * 2)))
+    list(pool.map(_spawn, range(nproc)))        # fork the workers before any thread exists
+    warm = [pool.submit(_warm, i) for i in range(nproc)]  # accelforge is imported while TLC runs
     sim = {"simulate": "num=1", "timeout": 3000}
-    jobs = [("e2n1t", "MC_Renames_e2n1t.cfg", {}), ("e2n1r", "MC_Renames_e2n1r.cfg", {})]
+    jobs = [("e2n1", "MC_Renames_e2n1.cfg", {})]
     if thorough:
-        jobs = [("e3n1t", "MC_Renames_e3n1t.cfg", {}), ("e3n1r", "MC_Renames_e3n1r.cfg", {}),
-                ("e2n2tr", "MC_Renames_e2n2tr.cfg", {}), ("e2n2tt", "MC_Renames_e2n2tt.cfg", {})] + jobs
-    jobs.append(("rand", "MC_Renames_rand.cfg", dict(sim, depth=30000 if thorough else 2500, seed=seed * 1000 + 29)))
+        jobs = [("e3n1", "MC_Renames_e3n1.cfg", {}), ("e2n2", "MC_Renames_e2n2.cfg", {})] + jobs
+    jobs.append(("rand", "MC_Renames_rand.cfg", dict(sim, depth=15000 if thorough else 1500, seed=seed * 1000 + 29)))
     timing, total, vias = {}, 0, {"local": 0, "top": 0, "default": 0, "none": 0}
     rejected = 0
 
@@ -258,6 +264,7 @@ def run(ck: Check):
         label, cfg, kw = job
         kw = dict(kw)
         kw.setdefault("timeout", 3000)
+        kw.setdefault("env", {})["JAVA_TOOL_OPTIONS"] = "-XX:ParallelGCThreads=2"  # the machine is shared
         return label, _tlc.run("MC_Renames", cfg, workdir=ck.work, coverage=False, workers=1, **kw)
 
     try:
@@ -303,8 +310,7 @@ def run(ck: Check):
             raise Machinery("vacuity: no (Einsum, name) cell resolved via %s" % v)
     if rejected == 0 or rejected == total:
         raise Machinery("vacuity: rejected cases %d of %d" % (rejected, total))
-    import accelforge
-    ck.extra["accelforge_path"] = os.path.dirname(accelforge.__file__)
+    ck.extra["accelforge_path"] = warm[0].result()
     ck.exhaustive = False
     ck.extra["exhaustive_parts"] = [j[0] for j in jobs if j[0] != "rand"]
     ck.extra["timing"] = timing
